@@ -115,6 +115,20 @@ Theorem failing_initialiser_fails_import : forall t ks c e er,
 Proof. exact failing_initialiser_l. Qed.
 Print Assumptions failing_initialiser_fails_import.
 
+(* a constant registered by an import (under its name and under module.name) rejects an assignment by
+   the importer - the former finding C18-imported-const-assignable, repaired by fix a4fa15d *)
+Theorem imported_constant_rejects_assignment : forall t ks e t' k v,
+  apply_op t (OInit ks true e) = Ok t' -> In k ks -> assign t' k v = Err (EConstAssign k).
+Proof. exact init_const_rejects_assignment. Qed.
+Print Assumptions imported_constant_rejects_assignment.
+
+(* ... and, in general, an assignment to an unqualified name is accepted or rejected (same error) alike
+   after `import` and after pasting the loaded files *)
+Theorem assignment_imported_like_inlined : forall a b k v,
+  sim a b -> contains "." k = false -> rsim (assign a k v) (assign b k v).
+Proof. exact sim_assign. Qed.
+Print Assumptions assignment_imported_like_inlined.
+
 (* ------------------------------------------------------------------ once *)
 
 Theorem import_idempotent : forall fuel pf fs p r t,
@@ -354,7 +368,8 @@ Definition ex_rank (p : name) : nat :=
 Example initialisers_evaluated : exists t,
   load 5 5 ex_init ["layout"] empty_tables = Ok t /\
   lookup "ROW" (vars t) = Some (true, Some 8) /\ lookup "PAGE" (vars t) = Some (true, Some 7) /\
-  lookup "layout.ROW" (vars t) = Some (true, Some 8) /\ lookup "UNIT" (vars t) = Some (true, Some 4).
+  lookup "layout.ROW" (vars t) = Some (true, Some 8) /\ lookup "UNIT" (vars t) = Some (true, Some 4) /\
+  assign t "ROW" 3 = Err (EConstAssign "ROW").
 Proof. eexists. vm_compute. repeat split. Qed.
 
 (* without the nested import the initialiser fails and with it the import *)
